@@ -768,8 +768,13 @@ impl Indexable for ast::InnerValue {
         let mut lhs_typ = self.simple_value()?.index(ctx)?;
         for suffix in self.suffixes() {
             lhs_typ = match suffix {
-                ast::ValueSuffix::RangeSuffix(_) => match lhs_typ {
-                    Type::Bits(_) => Some(Type::Bit),
+                ast::ValueSuffix::RangeSuffix(range_suffix) => match lhs_typ {
+                    // one bit selected: bit; several (`v{3-0}`, `v{3...0}`, `v{1, 0}`): bits<n>
+                    Type::Bits(_) => match range_suffix.range_list().and_then(|it| bit_count(&it)) {
+                        Some(1) => Some(Type::Bit),
+                        Some(n) => Some(Type::Bits(n)),
+                        None => None,
+                    },
                     _ => None,
                 },
                 ast::ValueSuffix::SliceSuffix(slice_suffix) => {
@@ -796,6 +801,20 @@ impl Indexable for ast::InnerValue {
         }
         Some(lhs_typ)
     }
+}
+
+/// number of bits selected by a range list; `None` if a piece is malformed
+fn bit_count(range_list: &ast::RangeList) -> Option<usize> {
+    let mut count = 0;
+    for piece in range_list.pieces() {
+        let start = piece.start()?.value()?;
+        count += match piece.end() {
+            // `3-0` is lexed as `3` `-0`: the sign of the end belongs to the separator
+            Some(end) => (start - end.value()?.abs()).unsigned_abs() as usize + 1,
+            None => 1,
+        };
+    }
+    Some(count)
 }
 
 impl Indexable for ast::SimpleValue {
